@@ -24,6 +24,10 @@ pub struct Ctx {
     pub only: Option<u64>,
     pub max_cases: u64,
     pub budget_ms: u64,
+    /// soft per-case time budget (0 = none): engines whose cases are long histories stop a history between two
+    /// steps once it has used this much wall-clock time.  Only the interpreter runs set it; a replay never does.
+    pub case_ms: u64,
+    pub case_start: std::cell::Cell<Instant>,
     /// name of the monitor configuration (debug / release / miri / asan / memcheck)
     pub mode: String,
     /// cheap mode for interpreters: skip the expensive reference-side work where the native runs do it
@@ -56,12 +60,19 @@ impl Ctx {
         while !self.out_of_budget(done) {
             self.begin_case(idx);
             f(idx, rep);
+            let ms = self.case_start.get().elapsed().as_millis() as u64;
+            rep.max("max:case_ms", ms);
             idx += self.nshards;
             done += 1;
         }
     }
+    /// True when the current case has used up its soft time budget (see `case_ms`).
+    pub fn case_over(&self) -> bool {
+        self.case_ms > 0 && self.case_start.get().elapsed().as_millis() as u64 >= self.case_ms
+    }
     pub fn begin_case(&self, idx: u64) {
         self.current.store(idx, Ordering::SeqCst);
+        self.case_start.set(Instant::now());
         CASE_CPU_START.with(|c| *c.borrow_mut() = cpu_ms());
         if self.trace {
             eprintln!("CASE {}", idx);
